@@ -1,15 +1,20 @@
 //@@ UNIT LEX
+//@@ RLIMIT 30
 // Unit LEX — src/parse/lex/state.rs (whole state machine) + Lex::new (token.rs).
 // Function bodies are copied verbatim from /repo on every run.
 #![allow(unused_imports, dead_code, unused_variables, non_snake_case, unused_mut)]
 use vstd::prelude::*;
 use std::cmp::{max, min, Ordering};
+use std::iter::Peekable;
+use std::str::Chars;
 
 //@@ INCLUDE pos_types.inc.rs
 //@@ TYPE src/parse/lex/token.rs | struct | Lex
 //@@ TYPE src/parse/lex/token.rs | enum | Token
 //@@ TYPE src/parse/lex/state.rs | struct | State | pubfields
 //@@ TYPE src/parse/lex/pass/docstring.rs | struct | DocString | pubfields
+//@@ TYPE src/parse/lex/result.rs | type | LexResult
+pub struct LexErr { _x: u8 }
 
 verus! {
 
@@ -19,6 +24,10 @@ verus! {
 #[verifier::external_type_specification] pub struct ExToken(Token);
 #[verifier::external_type_specification] pub struct ExState(State);
 #[verifier::external_type_specification] pub struct ExDocString(DocString);
+#[verifier::external_type_specification] #[verifier::external_body] pub struct ExLexErr(LexErr);
+#[verifier::external_type_specification] #[verifier::external_body]
+#[verifier::reject_recursive_types(I)]
+pub struct ExPeekable<I: Iterator>(Peekable<I>);
 
 // ---- trusted: derived impls are structural (A-DERIVE), std conversions (A-STD) --------------------
 //@@ INCLUDE pos_body.inc.rs
@@ -101,6 +110,9 @@ pub open spec fn tok_last_line_width(t: Token) -> nat {
     }
 }
 
+pub open spec fn last_small(v: Seq<Lex>) -> bool { v.len() > 0 ==> small(v.last().pos.end.pos) && small(v.last().pos.end.line) }
+/// the last lexeme of a batch (the real token) ends at the caret
+pub open spec fn last_at_caret(v: Seq<Lex>, s: State) -> bool { v.len() > 0 ==> v.last().pos.end == s.pos }
 pub open spec fn is_synthetic(t: Token) -> bool {
     t == Token::NL || t == Token::Indent || t == Token::Dedent
 }
@@ -242,7 +254,7 @@ impl Token {
 impl Lex {
 //@@ FN src/parse/lex/token.rs | impl Lex | new
     requires
-        small(start.line), small(start.pos), tok_breaks(token) < 0x4000_0000, tok_width(token) < 0x4000_0000,
+        start.line <= 0x4000_0000, start.pos <= 0x4000_0000, tok_breaks(token) < 0x4000_0000, tok_width(token) < 0x4000_0000,
         tok_last_line_width(token) < 0x4000_0000,                                //# sizes_below_2_30 [C03]
     ensures
         r.token == token,                                                        //# token_kept [C18]
@@ -263,7 +275,7 @@ impl State {
     requires wf(*old(self)),
     ensures
         r@.len() == old(self).cur_indent / 4,                                    //# flush_emits_cur_div_4 [C18,C14]
-        forall|i: int| 0 <= i < r@.len() ==> #[trigger] r@[i].token == Token::Dedent && r@[i].pos.start == old(self).pos,  //# flush_only_dedents_at_caret [C18]
+        forall|i: int| 0 <= i < r@.len() ==> #[trigger] r@[i].token == Token::Dedent && r@[i].pos.start == old(self).pos && r@[i].pos.end == old(self).pos,  //# flush_only_dedents_at_caret [C18]
         final(self).cur_indent == 1,                                             //# flush_resets_indent [C18]
         final(self).pos == old(self).pos, final(self).newlines == old(self).newlines,
         final(self).line_indent == old(self).line_indent, final(self).token_this_line == old(self).token_this_line,  //# flush_frame [C18]
@@ -433,6 +445,299 @@ pub proof fn lemma_token_counts(pre: State, g0: Seq<Lex>, gnl: Seq<Lex>, g1: Seq
         lemma_count_uniform(seq![mid.last()], Token::NL, Token::NL);
     }
 }
+
+// ---- the character loop (C18 at character level): src/parse/lex/tokenize.rs::into_tokens ------------------------------
+// Iterator model (A-STD): a Peekable<I> stands for the sequence `rest` of items not yet consumed; peek() looks at
+// the first one, next() removes it.
+pub uninterp spec fn rest<I: Iterator>(it: Peekable<I>) -> Seq<I::Item>;
+pub assume_specification<I: Iterator>[Peekable::<I>::peek](it: &mut Peekable<I>) -> (r: Option<&I::Item>)
+    ensures rest(*final(it)) == rest(*old(it)),
+        rest(*old(it)).len() == 0 ==> r is None,
+        rest(*old(it)).len() > 0 ==> r == Some(&rest(*old(it))[0]);
+pub assume_specification<I: Iterator>[<Peekable<I> as Iterator>::next](it: &mut Peekable<I>) -> (r: Option<I::Item>)
+    ensures
+        rest(*old(it)).len() == 0 ==> r is None && rest(*final(it)) == rest(*old(it)),
+        rest(*old(it)).len() > 0 ==> r == Some(rest(*old(it))[0]) && rest(*final(it)) == rest(*old(it)).drop_first();
+/// outline of `c.to_string()` on a char
+#[verifier::external_body]
+pub fn verif_outline_char_to_string(c: char) -> (r: String) ensures r@ == seq![c] { unimplemented!() }
+
+/// C18: where the caret must be after reading the characters `s` starting at (line, col): a line feed goes to
+/// column 1 of the next line, every other character (also '\r') one column to the right
+pub open spec fn advance(p: (int, int), s: Seq<char>) -> (int, int)
+    decreases s.len()
+{
+    if s.len() == 0 { p } else {
+        let q = advance(p, s.drop_last());
+        if s.last() == '\n' { (q.0 + 1, 1int) } else { (q.0, q.1 + 1) }
+    }
+}
+pub open spec fn caret_of(s: State) -> (int, int) { (s.pos.line as int, s.pos.pos as int) }
+/// the characters consumed between two iterator states (final is a suffix of old)
+pub open spec fn consumed(old_rest: Seq<char>, new_rest: Seq<char>) -> Seq<char> {
+    old_rest.subrange(0, old_rest.len() - new_rest.len())
+}
+pub open spec fn is_suffix(new_rest: Seq<char>, old_rest: Seq<char>) -> bool {
+    new_rest.len() <= old_rest.len() && new_rest =~= old_rest.subrange(old_rest.len() - new_rest.len(), old_rest.len() as int)
+}
+pub open spec fn no_nl(s: Seq<char>) -> bool { forall|i: int| 0 <= i < s.len() ==> s[i] != '\n' }
+
+pub proof fn lemma_advance_no_nl(p: (int, int), s: Seq<char>)
+    requires no_nl(s),
+    ensures advance(p, s) == (p.0, p.1 + s.len()),
+    decreases s.len(),
+{
+    if s.len() > 0 {
+        assert(no_nl(s.drop_last())) by {
+            assert forall|i: int| 0 <= i < s.drop_last().len() implies s.drop_last()[i] != '\n' by { assert(s.drop_last()[i] == s[i]); }
+        }
+        lemma_advance_no_nl(p, s.drop_last());
+    }
+}
+
+#[verifier::external_body] pub fn verif_opaque_string() -> String { unimplemented!() }
+impl LexErr {
+    #[verifier::external_body]
+    pub fn new(pos: CaretPos, token: Option<Token>, msg: &str) -> LexErr { unimplemented!() }
+}
+
+/// A-TOK: keyword / identifier recognition (`match` on string literals): the token is as wide as the text read
+#[verifier::external_body]
+pub fn as_op_or_id(string: String) -> (r: Token)
+    ensures tok_width(r) == string@.len(), tok_breaks(r) == 0, r != Token::NL,
+{ unimplemented!() }
+
+/// room for every remaining character in the 2^30 coordinate budget
+pub open spec fn room(s: State, n: nat) -> bool {
+    s.pos.line + n + 16 < 0x4000_0000 && s.pos.pos + n + 16 < 0x4000_0000 && s.newlines@.len() + n + 16 < 0x4000_0000
+}
+
+/// what one call of into_tokens must establish: the caret has moved exactly over the characters read.
+/// Stated by cases (solver friendly); lemma_char_step_is_advance shows every case is `advance` over the text read.
+pub open spec fn char_step(s0: State, c: char, r0: Seq<char>, s1: State, r1: Seq<char>) -> bool {
+    let k = r0.len() - r1.len();
+    &&& is_suffix(r1, r0) && wf(s1) && s1.newlines@.len() <= s0.newlines@.len() + 1
+    &&& ({
+        ||| (c != '\n' && no_nl(consumed(r0, r1)) && caret_of(s1) == (s0.pos.line as int, s0.pos.pos + 1 + k))
+        ||| (c == '\n' && k == 0 && caret_of(s1) == (s0.pos.line + 1, 1int))
+        ||| (c == '\r' && k == 1 && r0[0] == '\n' && caret_of(s1) == (s0.pos.line + 1, 1int))
+        ||| caret_of(s1) == advance(caret_of(s0), seq![c] + consumed(r0, r1))
+    })
+}
+
+pub proof fn lemma_char_step_is_advance(s0: State, c: char, r0: Seq<char>, s1: State, r1: Seq<char>)
+    requires char_step(s0, c, r0, s1, r1),
+    ensures caret_of(s1) == advance(caret_of(s0), seq![c] + consumed(r0, r1)),
+{
+    let k = r0.len() - r1.len();
+    let t = seq![c] + consumed(r0, r1);
+    if c != '\n' && no_nl(consumed(r0, r1)) && caret_of(s1) == (s0.pos.line as int, s0.pos.pos + 1 + k) {
+        assert(no_nl(t)) by {
+            assert forall|i: int| 0 <= i < t.len() implies t[i] != '\n' by {
+                if i > 0 { assert(t[i] == consumed(r0, r1)[i - 1]); }
+            }
+        }
+        lemma_advance_no_nl(caret_of(s0), t);
+    } else if c == '\n' && k == 0 {
+        assert(t =~= seq!['\n']);
+        assert(t.drop_last() =~= Seq::<char>::empty());
+        assert(advance(caret_of(s0), Seq::<char>::empty()) == caret_of(s0));
+    } else if c == '\r' && k == 1 && r0[0] == '\n' {
+        assert(t =~= seq!['\r', '\n']);
+        assert(t.drop_last() =~= seq!['\r']);
+        assert(seq!['\r'].drop_last() =~= Seq::<char>::empty());
+        assert(advance(caret_of(s0), Seq::<char>::empty()) == caret_of(s0));
+        assert(advance(caret_of(s0), seq!['\r']) == (s0.pos.line as int, s0.pos.pos + 1));
+    }
+}
+
+/// HAVOCKED arms of into_tokens (number scanning with iterator clone look-ahead; string scanning with a by-value
+/// `for c in it` loop and re-lexing of interpolated expressions): their effect is ASSUMED to satisfy the same
+/// character-level contract (A-HAVOC-ARMS); the bounded span oracle exercises them on the real code.
+#[verifier::external_body]
+pub fn verif_havoc_number_arm(c: char, it: &mut Peekable<Chars>, state: &mut State) -> (r: LexResult)
+    requires wf(*old(state)),
+    ensures r is Ok ==> char_step(*old(state), c, rest(*old(it)), *final(state), rest(*final(it))), is_suffix(rest(*final(it)), rest(*old(it))),
+        r matches Ok(v) ==> last_at_caret(v@, *final(state)),
+{ unimplemented!() }
+#[verifier::external_body]
+pub fn verif_havoc_string_arm(c: char, it: &mut Peekable<Chars>, state: &mut State) -> (r: LexResult)
+    requires wf(*old(state)),
+    ensures r is Ok ==> char_step(*old(state), c, rest(*old(it)), *final(state), rest(*final(it))), is_suffix(rest(*final(it)), rest(*old(it))),
+        r matches Ok(v) ==> last_at_caret(v@, *final(state)),
+{ unimplemented!() }
+
+//@@ FN src/parse/lex/tokenize.rs | free | create
+    requires
+        wf(*old(state)), tok_breaks(token) == 0, token != Token::NL ==> true,
+        old(state).pos.line + 2 < 0x4000_0000, old(state).pos.pos + tok_width(token) + 4 < 0x4000_0000,
+        old(state).newlines@.len() < 0x4000_0000,
+    ensures
+        r is Ok, wf(*final(state)), last_at_caret(r->Ok_0@, *final(state)),
+        token != Token::NL ==> caret_of(*final(state)) == (old(state).pos.line as int, old(state).pos.pos + tok_width(token)),   //# caret_moves_by_token_width [C18]
+        token == Token::NL ==> caret_of(*final(state)) == (old(state).pos.line + 1, 1int),   //# newline_token_moves_to_next_line [C18,C14]
+        final(state).newlines@.len() <= old(state).newlines@.len() + 1,
+//@@ END
+
+//@@ FN src/parse/lex/tokenize.rs | free | next_and_create
+    requires
+        wf(*old(state)), tok_breaks(token) == 0, token != Token::NL,
+        old(state).pos.line + 2 < 0x4000_0000, old(state).pos.pos + tok_width(token) + 4 < 0x4000_0000,
+        old(state).newlines@.len() < 0x4000_0000,
+    ensures
+        r is Ok, wf(*final(state)), last_at_caret(r->Ok_0@, *final(state)),
+        caret_of(*final(state)) == (old(state).pos.line as int, old(state).pos.pos + tok_width(token)),   //# caret_moves_by_token_width [C18]
+        rest(*old(it)).len() > 0 ==> rest(*final(it)) == rest(*old(it)).drop_first(),
+        rest(*old(it)).len() == 0 ==> rest(*final(it)) == rest(*old(it)),         //# exactly_one_more_character_is_read [C18]
+        final(state).newlines@.len() <= old(state).newlines@.len() + 1,
+//@@ END
+
+#[verifier::loop_isolation(false)]
+//@@ FN src/parse/lex/tokenize.rs | free | into_tokens | props=C18,C03
+//@@ HINT after
+//@@< let mut $comment = String::new(); while it.peek().is_some()
+//@@> /* binds $comment */
+//@@ HINT after
+//@@< let mut $id = c.to_string(); while let
+//@@> /* binds $id */
+//@@ LOOPINV
+//@@< while it.peek().is_some() && *it.peek().unwrap() != '\n' && *it.peek().unwrap() != '\r'
+//@@> invariant is_suffix(rest(*it), rest(*old(it))), $comment@ =~= consumed(rest(*old(it)), rest(*it)), no_nl(consumed(rest(*old(it)), rest(*it))), decreases rest(*it).len(),
+//@@ HINT before
+//@@< while let Some($lc) = it.peek()
+//@@> let ghost c0 = c;
+//@@ LOOPINV
+//@@< while let Some($lc) = it.peek()
+//@@> invariant is_suffix(rest(*it), rest(*old(it))), $id@ =~= seq![c0] + consumed(rest(*old(it)), rest(*it)), no_nl(consumed(rest(*old(it)), rest(*it))), decreases rest(*it).len(),
+//@@ HAVOC
+//@@< '0'..='9' => { let mut number $$ } 'a'..='z'
+//@@> '0'..='9' => { verif_havoc_number_arm(c, it, state) } 'a'..='z'
+//@@ HAVOC
+//@@< '"' => { let mut string $$ } ' ' =>
+//@@> '"' => { verif_havoc_string_arm(c, it, state) } ' ' =>
+//@@ OUTLINE count=all
+//@@< c.to_string()
+//@@> verif_outline_char_to_string(c)
+    requires wf(*old(state)), room(*old(state), rest(*old(it)).len()),            //# sizes_below_2_30 [C03]
+    ensures
+        is_suffix(rest(*final(it)), rest(*old(it))),                             //# only_reads_forward [C18]
+        // C18 at character level: after each call the caret is exactly where reading the consumed characters puts it
+        r is Ok ==> char_step(*old(state), c, rest(*old(it)), *final(state), rest(*final(it))),   //# caret_tracks_characters_read [C18,C14]
+        r matches Ok(v) ==> last_at_caret(v@, *final(state)),                    //# last_span_ends_at_caret [C18]
+//@@ END
+
+// ---- tokenize(): the whole-input theorem (C18 "line numbers never drift", "the stream ends with a single end-of-file token")
+/// outline of `input.chars().peekable()` (Iterator::peekable is a provided trait method): the iterator stands
+/// for all characters of the input
+#[verifier::external_body]
+pub fn verif_outline_chars_peekable<'a>(input: &'a str) -> (r: Peekable<Chars<'a>>) ensures rest(r) == input@ { unimplemented!() }
+/// the doc-string pass over the finished stream (DocString::modify is verified above; the dyn Pass dispatch is not)
+#[verifier::external_body]
+pub fn pass(input: &[Lex]) -> (r: Vec<Lex>) { unimplemented!() }
+
+pub proof fn lemma_advance_concat(p: (int, int), a: Seq<char>, b: Seq<char>)
+    ensures advance(advance(p, a), b) == advance(p, a + b),
+    decreases b.len(),
+{
+    if b.len() == 0 {
+        assert(a + b =~= a);
+    } else {
+        assert((a + b).drop_last() =~= a + b.drop_last());
+        lemma_advance_concat(p, a, b.drop_last());
+    }
+}
+
+pub proof fn lemma_advance_bound(p: (int, int), s: Seq<char>)
+    requires p.1 >= 1,
+    ensures advance(p, s).0 <= p.0 + s.len(), advance(p, s).1 <= p.1 + s.len(), advance(p, s).1 >= 1, advance(p, s).0 >= p.0,
+    decreases s.len(),
+{
+    if s.len() > 0 { lemma_advance_bound(p, s.drop_last()); }
+}
+
+/// one iteration of the tokenize loop in terms of the text read so far
+pub proof fn lemma_tokenize_step(input: Seq<char>, r_before: Seq<char>, c: char, r_mid: Seq<char>, r_after: Seq<char>, s0: State, s1: State)
+    requires
+        is_suffix(r_before, input), r_before =~= seq![c] + r_mid,
+        char_step(s0, c, r_mid, s1, r_after),
+        caret_of(s0) == advance((1int, 1int), consumed(input, r_before)),
+    ensures
+        is_suffix(r_after, input),
+        caret_of(s1) == advance((1int, 1int), consumed(input, r_after)),
+        caret_of(s1).0 <= 1 + consumed(input, r_after).len(), caret_of(s1).1 <= 1 + consumed(input, r_after).len(),
+{
+    lemma_char_step_is_advance(s0, c, r_mid, s1, r_after);
+    let n = input.len() as int;
+    let lb = r_before.len() as int;
+    let lm = r_mid.len() as int;
+    let la = r_after.len() as int;
+    assert(lb == lm + 1);
+    // r_mid is the suffix of input of length lm
+    assert forall|i: int| 0 <= i < lm implies r_mid[i] == input[n - lm + i] by {
+        assert(r_before[i + 1] == r_mid[i]);
+        assert(r_before[i + 1] == input.subrange(n - lb, n)[i + 1]);
+    }
+    // r_after is the suffix of input of length la
+    assert forall|i: int| 0 <= i < la implies r_after[i] == input[n - la + i] by {
+        assert(r_after[i] == r_mid.subrange(lm - la, lm)[i]);
+    }
+    assert(r_after =~= input.subrange(n - la, n));
+    let a = consumed(input, r_before);
+    let b = seq![c] + consumed(r_mid, r_after);
+    assert(c == r_before[0]);
+    assert(r_before[0] == input.subrange(n - lb, n)[0]);
+    assert forall|i: int| 0 <= i < (a + b).len() implies (a + b)[i] == consumed(input, r_after)[i] by {
+        if i < a.len() {
+        } else if i == a.len() {
+            assert((a + b)[i] == c);
+        } else {
+            let j = i - a.len() - 1;
+            assert((a + b)[i] == consumed(r_mid, r_after)[j]);
+            assert(consumed(r_mid, r_after)[j] == r_mid[j]);
+        }
+    }
+    assert(a + b =~= consumed(input, r_after));
+    lemma_advance_concat((1int, 1int), a, b);
+    lemma_advance_bound((1int, 1int), consumed(input, r_after));
+}
+
+#[verifier::loop_isolation(false)]
+//@@ FN src/parse/lex/mod.rs | free | tokenize | props=C18,C03
+//@@ OUTLINE
+//@@< input.chars().peekable()
+//@@> verif_outline_chars_peekable(input)
+//@@ HINT after
+//@@< let mut $it = input.chars().peekable();
+//@@> /* binds $it */
+//@@ HINT after
+//@@< let mut $state = State::new();
+//@@> /* binds $state */
+//@@ LOOPINV
+//@@< while let Some($c) = $it.next()
+//@@> invariant wf($state), is_suffix(rest($it), input@), caret_of($state) == advance((1int, 1int), consumed(input@, rest($it))), $state.newlines@.len() <= input@.len() - rest($it).len(), $state.pos.line <= 1 + input@.len() - rest($it).len(), $state.pos.pos <= 1 + input@.len() - rest($it).len(), last_small($tokens@), decreases rest($it).len(),
+//@@ HINT after
+//@@< let mut $tokens = Vec::new();
+//@@> /* binds $tokens */
+//@@ HINT before
+//@@< $tokens.append(&mut into_tokens($c, &mut $it, &mut $state)?);
+//@@> let ghost rb = seq![$c] + rest($it); let ghost s0 = $state; let ghost rm = rest($it);
+//@@ HINT after
+//@@< $tokens.append(&mut into_tokens($c, &mut $it, &mut $state)?);
+//@@> proof { lemma_tokenize_step(input@, rb, $c, rm, rest($it), s0, $state); }
+//@@ CLAIM before
+//@@< $tokens.append(&mut $state.flush_indents());
+//@@> assert(caret_of($state) == advance((1int, 1int), input@));  //# caret_after_whole_input_is_advance_of_the_text [C18]
+//@@ HINT before
+//@@< $tokens.append(&mut $state.flush_indents());
+//@@> let ghost t0 = $tokens@; let ghost p0 = $state.pos;
+//@@ HINT after
+//@@< $tokens.append(&mut $state.flush_indents());
+//@@> proof { if $tokens@.len() > t0.len() { assert($tokens@.last() == $tokens@[$tokens@.len() - 1]); assert($tokens@[$tokens@.len() - 1].token == Token::Dedent); assert($tokens@.last().pos.end == p0); } else { assert($tokens@ =~= t0); } assert(last_small($tokens@)); }
+//@@ CLAIM before
+//@@< let $out = pass(&$tokens);
+//@@> assert($tokens@.len() >= 1 && $tokens@.last().token == Token::Eof);  //# stream_ends_with_eof [C18]
+    requires input@.len() + 64 < 0x4000_0000,                                    //# sizes_below_2_30 [C03]
+//@@ END
 
 // ---- doc-string pass (C18 "... and doc-strings"): `""` `"doc"` `""` become one DocStr token ----------------------------
 /// the three quotes of a doc-string as the lexer emits them: consecutive spans, each ending where span_end says
